@@ -121,11 +121,15 @@ def units(tier):
     U = []
     for module, rows in T.TABLES.items():
         for row in rows:
-            if row["u"] == "row":
-                continue
             cls = live_class(module, row["name"])
             if cls is None:
                 continue            # reported by the exhaustive check below
+            if row["u"] == "row":
+                # the opcode of this row could not be confirmed offline: the frame STRUCTURE (address byte, instance byte,
+                # selector bits, opcode position) is still verified, with the opcode as implemented
+                if row["kind"] != "dev-inst" or not isinstance(getattr(cls, "_opcode", None), int):
+                    continue
+                row = dict(row, opcode=cls._opcode, structure_only=True)
             cs = list(cases(row))
 
             def runner(ctx, interp, fn, cls=cls, row=row, cs=cs):
@@ -151,7 +155,8 @@ def units(tier):
                     return
                 ctx.prove(cname + "/standard-frame-decodes-to-this-command", r is not None and type_of(r) is cls,
                           detail="decodes to %s" % (type_of(r).__name__ if r is not None else None))
-            U.append(Unit("C03/%s.%s" % (module.replace("dali.", ""), row["name"]), "C03", None, None, use=USE, width=72,
+            U.append(Unit("C03/%s%s.%s" % ("structure-only/" if row.get("structure_only") else "",
+                                           module.replace("dali.", ""), row["name"]), "C03", None, None, use=USE, width=72,
                           kind="custom", runner=runner, max_paths=100000))
     U.extend(event_units())
     return U
@@ -233,9 +238,25 @@ def answer_kind(cls):
     return "8"
 
 
+def general_rules(module, name, cls):
+    """For rows / flags I could not confirm against the tables offline, the GENERAL rules of IEC 62386-102 / -103 still
+    apply and are certain: a command that expects an answer is a query and is never sent twice; a query has an answer;
+    configuration instructions (Set... / Store... / Reset...) without an answer must be sent twice to take effect."""
+    out = []
+    answers = cls.response is not None
+    if answers and cls.sendtwice:
+        out.append("%s.%s: expects an answer but is marked send-twice" % (module, name))
+    if name.startswith("Query") and not answers:
+        out.append("%s.%s: a query without an answer" % (module, name))
+    if name.startswith(("Set", "Store", "Reset")) and not answers and not cls.sendtwice:
+        out.append("%s.%s: a configuration instruction that is not sent twice" % (module, name))
+    return out
+
+
 def extra_checks(tier, seed):
     t0 = time.time()
     problems = []
+    rule_problems = []
     n = 0
     unverified = []
     rows_seen = set()
@@ -249,9 +270,11 @@ def extra_checks(tier, seed):
                 continue
             if row["u"] == "row":
                 unverified.append("%s.%s (whole row)" % (module, row["name"]))
+                rule_problems.extend(general_rules(module, row["name"], cls))
                 continue
             if "twice" in row["u"]:
                 unverified.append("%s.%s (send-twice flag)" % (module, row["name"]))
+                rule_problems.extend(general_rules(module, row["name"], cls))
             elif bool(cls.sendtwice) != row["twice"]:
                 problems.append("%s.%s: sendtwice=%r, standard says %r" % (module, row["name"], cls.sendtwice, row["twice"]))
             if answer_kind(cls) != row["answer"]:
@@ -261,6 +284,10 @@ def extra_checks(tier, seed):
     out = [{"name": "C03/flags/send-twice-answer-kind-device-type", "status": "failed" if problems else "discharged",
             "cases": n, "kind": "exhaustive", "seconds": time.time() - t0, "detail": "; ".join(problems[:8]),
             "witness": {"problems": problems}, "replay": {"problems": problems, "unverified_rows_or_flags": unverified}}]
+    out.append({"name": "C03/flags/general-rules-on-rows-not-confirmed-against-the-tables",
+                "status": "failed" if rule_problems else "discharged", "cases": len(unverified), "kind": "exhaustive",
+                "seconds": 0.0, "detail": "; ".join(rule_problems[:8]), "witness": {"problems": rule_problems},
+                "replay": {"problems": rule_problems}})
     t0 = time.time()
     missing = []
     m = 0
@@ -299,6 +326,9 @@ META = {
         "flags marked unverified are excluded: " + "; ".join(unverified_list()),
         "Frame/Address/Instance operations through their contracts",
     ],
-    "undecided_clauses": ["conformance of the rows and flags listed as unverified"],
+    "undecided_clauses": ["conformance of the opcodes (301/303/304) and send-twice flags (202, two 207/209 flags) listed as "
+                          "unverified with the standard's tables; for those rows the frame structure (with the opcode as "
+                          "implemented) and the general rules (queries answer and are not sent twice, Set/Store/Reset "
+                          "configuration instructions are sent twice) are still checked"],
     "trusted_base": ["specs/iec62386.py", "contracts/frame.py", "contracts/address.py"],
 }
